@@ -231,8 +231,14 @@ class Schema:
 
     def add_schema(self, schema, root_path: DataPath):
         for rule in schema.rules:
-            rule.path = root_path / rule.path
-            self.rules.append(rule)
+            self.rules.append(
+                Rule(
+                    path=root_path / rule.path,
+                    condition=rule.condition,
+                    cast=rule.cast,
+                    doc=rule.doc,
+                )
+            )
 
         self.rules = sorted(self.rules, key=lambda i: len(i.path))
 
